@@ -1,7 +1,7 @@
 (* C08 - eIds follow the naming convention and are stable under unrelated edits.
    Statements only; proofs in Proofs/EidConvention.v. *)
 Require Import BB.Base.Str BB.Base.Xml BB.Gen.TablesXml BB.Model.Eid BB.Model.EidSpec.
-Require Import BB.Proofs.EidConvention BB.Proofs.EidTop BB.Proofs.EidLocal BB.Proofs.EidNest.
+Require Import BB.Proofs.EidConvention BB.Proofs.EidTop BB.Proofs.EidLocal BB.Proofs.EidNest BB.Proofs.EidFirst.
 
 (* For every tree, prefix and generator state: every identified element's id is
    <prefix handed down>__<abbreviation>_<number part>, possibly followed by _k suffixes, where the
@@ -48,3 +48,55 @@ Print Assumptions C08_subtree_ids_local.
 Theorem C08_ids_nest : forall e q s e' s', rewrite_eid e q s = Some (e', s') -> ids_nested e'.
 Proof. exact rewrite_ids_nested. Qed.
 Print Assumptions C08_ids_nest.
+
+(* "clashes get a _2, _3 suffix in document order": in the output of a run, a numbered element carries its bare candidate
+   <prefix>__<abbr>_<num> unless an EARLIER element - earlier in document order - was given an id built on that very candidate (the
+   candidate itself, or the candidate followed by _k suffixes).  [first_ok q L e'] says this of every element of e', L being the ids
+   issued before e' (Proofs/EidFirst.v). *)
+Theorem C08_clash_suffix_in_document_order : forall e q e' m,
+  rewrite_all_eids e q = Some (e', m) -> first_ok q [] e'.
+Proof. exact first_asker_unsuffixed. Qed.
+Print Assumptions C08_clash_suffix_in_document_order.
+
+(* The second sentence of the property, no longer partial: in the output of a run, a provision all of whose identified ancestors,
+   and itself, carry a num on which no earlier id is built ([path_first]) has the id spelled by the names and numbers along its
+   ancestor path - nothing else in the document matters. *)
+Theorem C08_path_determined : forall e q e' m pi labels tag a ks,
+  rewrite_all_eids e q = Some (e', m) ->
+  path_labels e' pi = Some (labels, El tag a ks) -> path_first q [] e' pi ->
+  identifiable tag = true -> old_id a = path_eid q labels.
+Proof. exact unique_path_determined. Qed.
+Print Assumptions C08_path_determined.
+
+(* ... and so two documents, however different, give the same id to a provision that has the same labels along its path and is
+   uniquely numbered along it in both. *)
+Theorem C08_stable_under_edit : forall e1 e2 q e1' m1 e2' m2 pi1 pi2 labels tag1 a1 k1 tag2 a2 k2,
+  rewrite_all_eids e1 q = Some (e1', m1) -> rewrite_all_eids e2 q = Some (e2', m2) ->
+  path_labels e1' pi1 = Some (labels, El tag1 a1 k1) -> path_first q [] e1' pi1 ->
+  path_labels e2' pi2 = Some (labels, El tag2 a2 k2) -> path_first q [] e2' pi2 ->
+  identifiable tag1 = true -> identifiable tag2 = true -> old_id a1 = old_id a2.
+Proof. exact unique_path_stable. Qed.
+Print Assumptions C08_stable_under_edit.
+
+(* the premises are met: two documents that differ away from section 2(a) - an inserted section, a duplicated number, other
+   content - and the subsection's id in both *)
+Definition c08_num (s : String.string) : xml := El (of_string "num") [] [Tx (of_string s)].
+Definition c08_sec (n : String.string) (kids : list xml) : xml := El (of_string "section") [] (c08_num n :: kids).
+Definition c08_sub (n : String.string) : xml := El (of_string "subsection") [] [c08_num n; El (of_string "content") [] [El (of_string "p") [] [Tx (of_string "x")]]].
+Definition c08_doc1 : xml := El (of_string "body") [] [c08_sec "1." [c08_sub "(a)"]; c08_sec "2." [c08_sub "(a)"]].
+Definition c08_doc2 : xml := El (of_string "body") [] [c08_sec "1." [c08_sub "(a)"; c08_sub "(a)"]; c08_sec "1." []; c08_sec "9" [c08_sub "(b)"]; c08_sec "2." [c08_sub "(a)"; c08_sub "(a)"]].
+Example C08_stable_example :
+  exists e1' m1 e2' m2 a1 k1 a2 k2 labels,
+    rewrite_all_eids c08_doc1 [] = Some (e1', m1) /\ rewrite_all_eids c08_doc2 [] = Some (e2', m2)
+    /\ path_labels e1' [1; 1]%nat = Some (labels, El (of_string "subsection") a1 k1) /\ path_first [] [] e1' [1; 1]%nat
+    /\ path_labels e2' [3; 1]%nat = Some (labels, El (of_string "subsection") a2 k2) /\ path_first [] [] e2' [3; 1]%nat
+    /\ old_id a1 = of_string "sec_2__subsec_a" /\ old_id a2 = of_string "sec_2__subsec_a".
+Proof.
+  destruct (rewrite_all_eids c08_doc1 []) as [[e1' m1]|] eqn:E1; [|vm_compute in E1; discriminate].
+  destruct (rewrite_all_eids c08_doc2 []) as [[e2' m2]|] eqn:E2; [|vm_compute in E2; discriminate].
+  vm_compute in E1, E2. inversion E1; subst e1' m1. inversion E2; subst e2' m2. clear E1 E2.
+  do 9 eexists. split; [reflexivity|]. split; [reflexivity|].
+  split; [vm_compute; reflexivity|]. split; [apply path_firstb_sound; vm_compute; reflexivity|].
+  split; [vm_compute; reflexivity|]. split; [apply path_firstb_sound; vm_compute; reflexivity|].
+  split; vm_compute; reflexivity.
+Qed.
